@@ -683,12 +683,6 @@ Section ReaderModes.
     destruct (reader_init_modes lines override) as (HS & (lgL & HL & HwL) & HT).
     set (p := plan_of lines override) in *.
     rewrite HS, HL. rewrite !reader_iterate_mk.
-    (* the three traces *)
-    assert (Htr : forall m, exists t, (match ip_next p with
-              | None => ([], [], EndStop, [])
-              | Some cur => iterate cur (ip_lineno p) (ip_pending p) (ip_scheme p) m
-                              (fst (h_sort_order (ip_recs p))) (snd (h_sort_order (ip_recs p))) None
-              end) = t) by (intros; eexists; reflexivity).
     destruct (ip_next p) as [cur|] eqn:EN.
     - destruct (iterate_modes (ip_pending p) cur (ip_lineno p) (ip_scheme p)
                   (fst (h_sort_order (ip_recs p))) (snd (h_sort_order (ip_recs p))) None None None I I)
